@@ -143,6 +143,9 @@ def _pair_case(draw, families=tuple(PAIR_FAMILIES), full_rank=False):
         case["perm2"] = list(draw(st.permutations(list(range(d)))))
     if full_rank:
         case["full"] = True
+    # one argument real-valued with a real dtype, the other complex (a slip keyed on one argument's dtype is invisible
+    # when both states always share a dtype; several independently seeded changes elsewhere were of this kind)
+    case["mixed_dtype"] = (not real) and fam in ("generic", "pure_mixed", "pure_pure") and draw(st.integers(0, 3)) == 0
     return case
 
 
@@ -157,8 +160,11 @@ def _pair(case):
     r1, r2 = case["r1"], case["r2"]
     s = _subseeds(case["seed"])
     info = {}
+    md = bool(case.get("mixed_dtype"))
     if fam in ("generic", "nearly_equal", "equal"):
-        rho = _density(s[0], d, r1, real, case["spec1"])
+        rho = _density(s[0], d, r1, real or md, case["spec1"])
+        if md:
+            rho = np.array(np.real(rho), dtype=float)
         if fam == "equal":
             sigma = rho.copy()
         elif fam == "generic":
@@ -167,8 +173,11 @@ def _pair(case):
             tau = _density(s[1], d, r2, real, case["spec2"])
             sigma = _herm((1 - EPS_NEAR) * rho + EPS_NEAR * tau)
     elif fam in ("pure_equal", "pure_pure", "pure_mixed"):
-        psi = gen.rand_ket(s[0], d, real)
+        psi = gen.rand_ket(s[0], d, real or md)
         rho = _proj(psi)
+        if md:
+            psi = np.real(psi)
+            rho = np.array(np.real(rho), dtype=float)
         info["psi"] = psi
         if fam == "pure_equal":
             sigma = rho.copy()
